@@ -27,11 +27,20 @@ func checkC14(p *Prog, r *Report) {
 	rErr := r.Rule("exit-status-returned", "Wait's error is what Go returns")
 	rIn := r.Rule("stdin-unchanged", "SetInput stores its reader into cmd.Stdin unchanged")
 
-	cmdF := p.Field(sshPkg, "CmdShell", "cmd")
-	outw := p.Field(sshPkg, "CmdShell", "outw")
+	/* The output writer is the *io.PipeWriter CmdShell holds (directly or in
+	a struct of its own); whatever it is called. */
 	goFn := p.Func(sshPkg, "CmdShell", "Go")
-	if nil == cmdF || nil == outw || nil == goFn {
-		rPipes.Unproven("CmdShell", token.NoPos, "CmdShell.cmd, CmdShell.outw or CmdShell.Go not found")
+	var outw *types.Var
+	if nil != goFn && nil != goFn.Signature.Recv() {
+		if st := derefStruct(goFn.Signature.Recv().Type()); nil != st {
+			ws := fieldsOfType(st, func(t types.Type) bool { return typeIs(t, "io", "PipeWriter") }, 0)
+			if 1 == len(ws) {
+				outw = ws[0]
+			}
+		}
+	}
+	if nil == outw || nil == goFn {
+		rPipes.Unproven("CmdShell", token.NoPos, "CmdShell.Go or the one *io.PipeWriter of CmdShell not found")
 		return
 	}
 	r.Saw("func " + fnName(goFn))
@@ -41,7 +50,8 @@ func checkC14(p *Prog, r *Report) {
 		return typeIs(v.Type(), "os/exec", "Cmd")
 	}
 	/* 1. Pipes. */
-	pipeFields := map[string]*types.Var{} /* StdoutPipe/StderrPipe → field holding the reader */
+	pipeFields := map[string]pipeSrc{} /* StdoutPipe/StderrPipe → where the reader is kept */
+	havePipe := map[string]bool{}
 	for _, fn := range p.Funcs() {
 		if nil == fn.Pkg || !strings.HasSuffix(fn.Pkg.Pkg.Path(), "/"+sshPkg) {
 			continue
@@ -55,10 +65,27 @@ func checkC14(p *Prog, r *Report) {
 					r.Saw("func " + fnName(fn))
 					which := name[strings.LastIndex(name, ".")+1:]
 					if ex := extractOf(x, 0); nil != ex {
-						for _, ref := range *ex.Referrers() {
-							if st, ok := ref.(*ssa.Store); ok {
-								if fv, _ := fieldAddrOf(st.Addr); nil != fv {
-									pipeFields[which] = fv
+						for _, st := range storesOfValue(ex, 0) {
+							if fv, _ := fieldAddrOf(st.Addr); nil != fv {
+								pipeFields[which] = pipeSrc{fv, -1}
+								havePipe[which] = true
+							} else if ia, ok := st.Addr.(*ssa.IndexAddr); ok {
+								/* A row of a literal table kept in a field. */
+								k, isC := constInt(ia.Index)
+								if !isC {
+									continue
+								}
+								for _, ref := range *ia.X.Referrers() {
+									sl, isSl := ref.(*ssa.Slice)
+									if !isSl || nil != sl.Low || nil != sl.High {
+										continue
+									}
+									for _, st2 := range storesOfValue(sl, 0) {
+										if fv, _ := fieldAddrOf(st2.Addr); nil != fv {
+											pipeFields[which] = pipeSrc{fv, int(k)}
+											havePipe[which] = true
+										}
+									}
 								}
 							}
 						}
@@ -79,14 +106,14 @@ func checkC14(p *Prog, r *Report) {
 		})
 	}
 	for _, which := range []string{"StdoutPipe", "StderrPipe"} {
-		if nil == pipeFields[which] {
+		if !havePipe[which] {
 			rPipes.Bad("NewCmdShell:"+which, token.NoPos, "%s is not called (or its reader is not kept): that descriptor is not relayed through a pipe Go drains", which)
 		}
 	}
 	/* Readers: closures of Go copying from a pipe field into outw. */
 	type reader struct {
 		fn     *ssa.Function
-		field  *types.Var
+		field  pipeSrc
 		spawn  ssa.Instruction /* In Go: errgroup.Go(closure) / go closure() */
 		group  ssa.Value
 		anchor ssa.Instruction /* loop header test when started per row of a table */
@@ -103,23 +130,8 @@ func checkC14(p *Prog, r *Report) {
 			default:
 				return
 			}
-			src, _ := loadedField(stripConv(resolveCell(c.Common().Args[1]), false))
 			dst, _ := loadedField(stripConv(resolveCell(c.Common().Args[0]), false))
-			srcs := map[*types.Var]bool{}
-			inTable := false
-			if nil != src {
-				srcs[src] = true
-			} else if arr, ok := elemOfLiteral(c.Common().Args[1]); ok {
-				/* One copier per row of a literal table of readers. */
-				if els, ok := literalElems(arr); ok {
-					inTable = true
-					for _, e := range els {
-						if fv, _ := loadedField(stripConv(e, false)); nil != fv {
-							srcs[fv] = true
-						}
-					}
-				}
-			}
+			srcs, inTable := pipeSrcsOf(c.Common().Args[1], pipeFields)
 			if 0 == len(srcs) {
 				return
 			}
@@ -157,10 +169,10 @@ func checkC14(p *Prog, r *Report) {
 	/* Hand-written copy loops. */
 	for _, f := range withAnons(goFn) {
 		for _, cl := range findCopyLoops(f) {
-			src, _ := loadedField(stripConv(resolveCell(cl.Src), false))
+			srcs, _ := pipeSrcsOf(cl.Src, pipeFields)
 			dst, _ := loadedField(stripConv(resolveCell(cl.Dst), false))
 			for which, pf := range pipeFields {
-				if pf != src {
+				if !srcs[pf] {
 					continue
 				}
 				cc := fmt.Sprintf("%s:copies-%s", fnName(goFn), which)
@@ -180,7 +192,7 @@ func checkC14(p *Prog, r *Report) {
 			}
 		}
 	}
-	seenF := map[*types.Var]bool{}
+	seenF := map[pipeSrc]bool{}
 	for _, rd := range readers {
 		seenF[rd.field] = true
 	}
@@ -446,4 +458,106 @@ func waitGroupOf(parent, f *ssa.Function, spawn ssa.Instruction) ssa.Value {
 		return nil
 	}
 	return g
+}
+
+// pipeSrc is where a pipe's reader is kept: a field of CmdShell, or row k of a
+// literal table kept in one.
+type pipeSrc struct {
+	f *types.Var
+	k int /* -1: the field itself */
+}
+
+func (s pipeSrc) Name() string {
+	if s.k < 0 {
+		return s.f.Name()
+	}
+	return fmt.Sprintf("%s[%d]", s.f.Name(), s.k)
+}
+
+// pipeSrcsOf: which of the kept pipe readers v can be; inTable tells that v
+// is the row of a table at a loop's index (every row, once per iteration).
+func pipeSrcsOf(v ssa.Value, kept map[string]pipeSrc) (map[pipeSrc]bool, bool) {
+	out := map[pipeSrc]bool{}
+	rv := stripConv(resolveCell(stripConv(v, false)), false)
+	if fv, _ := loadedField(rv); nil != fv {
+		out[pipeSrc{fv, -1}] = true
+		return out, false
+	}
+	/* A row of a literal table in the same function. */
+	if arr, ok := elemOfLiteral(v); ok {
+		if els, ok := literalElems(arr); ok {
+			for _, e := range els {
+				if fv, _ := loadedField(stripConv(e, false)); nil != fv {
+					out[pipeSrc{fv, -1}] = true
+				}
+			}
+			return out, true
+		}
+	}
+	/* A row of a table kept in a field. */
+	if ld, ok := rv.(*ssa.UnOp); ok && token.MUL == ld.Op {
+		if ia, ok := ld.X.(*ssa.IndexAddr); ok {
+			if fv, _ := loadedField(stripConv(resolveCell(ia.X), false)); nil != fv {
+				if k, isC := constInt(ia.Index); isC {
+					out[pipeSrc{fv, int(k)}] = true
+					return out, false
+				}
+				for _, ps := range kept {
+					if ps.f == fv && ps.k >= 0 {
+						out[ps] = true
+					}
+				}
+				return out, true
+			}
+		}
+	}
+	return out, false
+}
+
+// storesOfValue: the stores which put v (possibly converted between interface
+// types, or merged with other values) into memory.
+func storesOfValue(v ssa.Value, depth int) []*ssa.Store {
+	var out []*ssa.Store
+	if depth > 4 || nil == v.Referrers() {
+		return out
+	}
+	for _, ref := range *v.Referrers() {
+		switch x := ref.(type) {
+		case *ssa.Store:
+			if x.Val == v {
+				out = append(out, x)
+			}
+		case *ssa.ChangeInterface:
+			out = append(out, storesOfValue(x, depth+1)...)
+		case *ssa.MakeInterface:
+			out = append(out, storesOfValue(x, depth+1)...)
+		case *ssa.ChangeType:
+			out = append(out, storesOfValue(x, depth+1)...)
+		case *ssa.Phi:
+			out = append(out, storesOfValue(x, depth+1)...)
+		}
+	}
+	return out
+}
+
+// fieldsOfType: the fields of st, and of the struct-typed fields of st
+// declared in the same package, whose type satisfies match.
+func fieldsOfType(st *types.Struct, match func(types.Type) bool, depth int) []*types.Var {
+	var out []*types.Var
+	if depth > 3 {
+		return out
+	}
+	for i := 0; i < st.NumFields(); i++ {
+		f := st.Field(i)
+		if match(f.Type()) {
+			out = append(out, f)
+			continue
+		}
+		if inner, ok := f.Type().Underlying().(*types.Struct); ok {
+			if n, isN := f.Type().(*types.Named); !isN || (nil != n.Obj().Pkg() && n.Obj().Pkg() == f.Pkg()) {
+				out = append(out, fieldsOfType(inner, match, depth+1)...)
+			}
+		}
+	}
+	return out
 }
